@@ -417,10 +417,13 @@ class MemoryFS(FS):
     def getinfo(self, path, namespaces=None):
         # type: (Text, Optional[Collection[Text]]) -> Info
         _path = self.validatepath(path)
-        dir_entry = self._get_dir_entry(_path)
-        if dir_entry is None:
-            raise errors.ResourceNotFound(path)
-        return dir_entry.to_info(namespaces=namespaces)
+        # the lookup and the reading of the entry's fields are one step:
+        # a concurrent move() renames the entry object in place
+        with self._lock:
+            dir_entry = self._get_dir_entry(_path)
+            if dir_entry is None:
+                raise errors.ResourceNotFound(path)
+            return dir_entry.to_info(namespaces=namespaces)
 
     def listdir(self, path):
         # type: (Text) -> List[Text]
